@@ -42,6 +42,8 @@ func init() {
 				}
 			}
 			obs = append(obs, c.ErrFlow(in, in)...)
+			obs = append(obs, c.FailedPartCounted("net/packet")...)
+			obs = append(obs, c.EndSentinelSwallow("net/packet")...)
 			// composition: Marshal/Builder must not hand out memory that is recycled
 			obs = append(obs, c.Pools("net/packet")...)
 			obs = append(obs, c.VarLen()...)
@@ -115,6 +117,7 @@ func init() {
 			obs = append(obs, c.ResizeWidth()...)
 			obs = append(obs, c.PaletteReadResets()...)
 			obs = append(obs, c.PaletteSizeBound("level")...)
+			obs = append(obs, c.CompressorClosed("save/...", "level/...")...)
 			return obs
 		},
 	}
@@ -137,6 +140,8 @@ func init() {
 			obs = append(obs, c.SignedArrayTargets("chat")...)
 			obs = append(obs, c.LoopDecodeTargets("chat")...)
 			obs = append(obs, c.PlainRenderingRemovesCodes("chat")...)
+			obs = append(obs, c.AppendTargetsTruncated("UnmarshalNBT", "chat")...)
+			obs = append(obs, c.AppendTargetsTruncated("UnmarshalJSON", "chat")...)
 			return obs
 		},
 	}
